@@ -24,6 +24,7 @@ import (
 func topLevelPhase(res *harness.R, r *rand.Rand, tree *model.Node, hasDot bool, dir, stem string, verbose bool) {
 	var doc *model.Node
 	dotted := false // literal keys containing '.': no PathSep then
+	nullDoc := false
 	switch x := r.Intn(8); {
 	case tree.HasA && x < 4:
 		doc = tree.Copy() // the case's own document is a top-level list
@@ -32,6 +33,11 @@ func topLevelPhase(res *harness.R, r *rand.Rand, tree *model.Node, hasDot bool, 
 		doc = model.Dict()
 	case x == 2:
 		doc = model.List()
+	case x == 3 && r.Intn(2) == 0:
+		// the document is the single word null: an empty configuration for the
+		// front-ends whose decoder reads it
+		nullDoc = true
+		doc = model.Dict()
 	default:
 		// fresh generator state: no variables, no dotted keys
 		g2 := &docGen{r: r, res: res}
@@ -46,6 +52,9 @@ func topLevelPhase(res *harness.R, r *rand.Rand, tree *model.Node, hasDot bool, 
 		shapeName = "empty-object"
 	case len(doc.A) == 0:
 		shapeName = "empty-list"
+	}
+	if nullDoc {
+		shapeName = "null-document"
 	}
 	pool := append(append([]string{}, plainKeys...), "a b", "ünï", "with-dash", "it's", "a:b", "zz_absent")
 	key := pool[r.Intn(len(pool))]
@@ -76,12 +85,25 @@ func topLevelPhase(res *harness.R, r *rand.Rand, tree *model.Node, hasDot bool, 
 	}
 	class := kind + ":top-level-config:" + shapeName
 
-	text := render(r, res, doc)
-	if why := prefilter(text, doc); why != "" {
-		res.Ev("prefilter_rejected_fault_document", 1)
-		reason, _, _ := strings.Cut(why, "|")
-		res.SetAdd("prefilter_reason", reason)
-		return
+	var skip [3]bool // front-ends whose raw decoder does not read the document
+	var text []byte
+	if nullDoc {
+		class = "any-fault:top-level-config:null-document"
+		text = []byte([]string{"null", "null\n", " null ", "\nnull\n"}[r.Intn(4)])
+		for i, ok := range rawReadsNull(text) {
+			if !ok {
+				skip[i] = true
+				res.Ev("null_document_not_read_by_raw_decoder_"+loaders[i].name, 1)
+			}
+		}
+	} else {
+		text = render(r, res, doc)
+		if why := prefilter(text, doc); why != "" {
+			res.Ev("prefilter_rejected_fault_document", 1)
+			reason, _, _ := strings.Cut(why, "|")
+			res.SetAdd("prefilter_reason", reason)
+			return
+		}
 	}
 	res.Ev("top_level_fault_documents", 1)
 	res.SetAdd("top_level_fault", class)
@@ -104,6 +126,9 @@ func topLevelPhase(res *harness.R, r *rand.Rand, tree *model.Node, hasDot bool, 
 	var files [3]string
 	for i, l := range loaders {
 		l := l
+		if skip[i] {
+			continue
+		}
 		p := filepath.Join(dir, "top-"+stem+"."+l.ext)
 		files[i] = p
 		if err := os.WriteFile(p, text, 0o644); err != nil {
